@@ -416,8 +416,12 @@ func cmdCheck(args []string) int {
 	ccfg.T1, ccfg.T2 = 2*time.Second, 2*time.Second
 	vacuous := []string{}
 	byFunc := map[string][]*Obligation{}
+	bySite := map[string][]*Obligation{}
 	for _, c := range canaries {
 		byFunc[c.Func] = append(byFunc[c.Func], c)
+		if c.Pos != "" {
+			bySite[c.Func+" return at "+c.Pos] = append(bySite[c.Func+" return at "+c.Pos], c)
+		}
 	}
 	type vres struct {
 		k   string
@@ -453,6 +457,51 @@ func cmdCheck(args []string) int {
 	for i := 0; i < nv; i++ {
 		if r := <-vch; r.vac {
 			vacuous = append(vacuous, r.k)
+		}
+	}
+	// every return statement must be reachable on some path under the assumptions made before it
+	// (an infeasible path proves anything: e.g. a return behind a call whose out-parameter the engine
+	// wrongly kept unchanged)
+	if os.Getenv("GOATVC_NO_SITE_CANARY") == "" {
+		type sres struct {
+			k   string
+			vac bool
+		}
+		sch := make(chan sres, len(bySite))
+		for k, cs := range bySite {
+			go func(k string, cs []*Obligation) {
+				sem <- struct{}{}
+				defer func() { <-sem }()
+				reach := false
+				for i, c := range cs {
+					if i >= 4 {
+						reach = true // too many paths to this return to try them all: not reported
+						break
+					}
+					c.Goal = "true"
+					if ex.coverSat(c, ccfg) != "unsat" {
+						reach = true
+						break
+					}
+				}
+				sch <- sres{k, !reach}
+			}(k, cs)
+		}
+		deadBy := map[string][]string{}
+		for range bySite {
+			if r := <-sch; r.vac {
+				fk := strings.SplitN(r.k, " return at ", 2)[0]
+				deadBy[fk] = append(deadBy[fk], r.k)
+			}
+		}
+		for fk, sites := range deadBy {
+			allowed := 0
+			if sp := specs.Funcs[fk]; sp != nil {
+				allowed = sp.DeadReturns
+			}
+			if len(sites) > allowed {
+				vacuous = append(vacuous, sites...)
+			}
 		}
 	}
 	sort.Strings(vacuous)
